@@ -22,7 +22,7 @@ RULE = (
     "torus flags, d in {2,3}; weights and biases perturbed away from initialisation (integer weights for the bias-free part). "
     "Non-trivial: >=2 input types contribute to some target type; distinct by configuration."
 )
-RULE += " Also: equal-channel and wide layers, single-pixel banks, long-reach dilation, whole models as workload, missing_filter flag; flags x padding by a covering schedule."
+RULE += " Strata of the layer generator: high tensor orders through the single-pixel bank (d=3, (2,0),(3,1) -> (3,1),(2,0): filter orders 4 and 5), hand-merged banks with 3x3 and 5x5 filter types. Also: equal-channel and wide layers, single-pixel banks, long-reach dilation, whole models as workload, missing_filter flag; flags x padding by a covering schedule."
 ASSUMPTIONS = ["reference layer vmon/ref/layer.py = ref.conv + Kronecker contraction + bias rule of the statement", "tolerance 1e-4 of the trace scale (float32 accumulation)"]
 ANCHORS = ["ginjax.ml.layers:ConvContract.__init__", "ginjax.ml.layers:ConvContract.individual_convolve", "ginjax.ml.layers:ConvContract.__call__", "ginjax.geometric.functional_geometric_image:convolve_contract"]
 MIN_NONTRIVIAL = {"quick": 30, "thorough": 500}
@@ -166,6 +166,7 @@ def run(case, ctx):
         return run_model(case, ctx, rng)
     cfg = mlgen.gen_layer_cfg(rng, D, allow_stride=True, equal_channels=(case["i"] % 3 == 1), stratum=case["i"])
     key = {k: cfg[k] for k in ("D", "M", "in_sig", "out_sig", "drop", "bias", "padding", "lhs", "rhs", "stride", "torus", "sp")}
+    key["mixed_M"], key["high_order"] = cfg.get("mixed_M"), bool(cfg.get("high_order"))
     viols, evals = [], 0
     _mon.take()
     sink = io.StringIO()
@@ -187,7 +188,7 @@ def run(case, ctx):
         viols.append(viol(f"layer-exception-{type(e).__name__}", f"{type(e).__name__}: {str(e)[:300]}; {key}; {traceback.format_exc()[-400:]}"))
     viols += _mon.take()
     return result(key, viols[:3], contrib >= 2, evals=evals, obs={"layer_calls_checked": evals},
-                  hist={"D": D, "M": cfg["M"], "bias": str(cfg["bias"]), "pad_kind": cfg["pad_kind"] + ("+lhs" if cfg["lhs"] else ""), "torus_kind": cfg["torus_kind"], "partial_bank": cfg["drop"] is not None, "stride": str(cfg["stride"] == 1), "channels": "equal" if case["i"] % 3 == 1 else "distinct"},
+                  hist={"D": D, "M": ("mixed" if cfg.get("mixed_M") else ("1-high-order" if cfg.get("high_order") else cfg["M"])), "bias": str(cfg["bias"]), "pad_kind": cfg["pad_kind"] + ("+lhs" if cfg["lhs"] else ""), "torus_kind": cfg["torus_kind"], "partial_bank": cfg["drop"] is not None, "stride": str(cfg["stride"] == 1), "channels": "equal" if case["i"] % 3 == 1 else "distinct"},
                   sample={"cfg": key})
 
 
